@@ -486,7 +486,7 @@ def spec_of_expr(e, fn, aliases, depth=0):
         sc = short(callee)
         if sc == "from_elem" and len(e["args"]) == 2:
             return Spec("fill", _norm(nf.nf(e["args"][0], casts=True, res=R), aliases), _norm(nf.nf(e["args"][1], casts=True, res=R), aliases))
-        if sc == "new" and not e["args"]:
+        if (sc == "new" and not e["args"]) or (sc == "with_capacity" and len(e["args"]) == 1 and "Vec" in callee):
             return Spec("empty", "", "")
         if sc in ("new", "default"):
             owner = callee.rsplit("::", 1)[0]
